@@ -56,7 +56,23 @@ class C03(HistoryProperty):
 
     def gen_case(self, rng, tier):
         cfg = gen.swarm_cfg(rng, on=("dsclass",))
-        spec = gen.prune(gen.gen_spec(rng, cfg))
+        spec = gen.gen_spec(rng, cfg)
+        if rng.random() < 0.2:
+            # a Map over TWO keys whose target reads a caller option only where both take their non-first value: the keys of
+            # a Map are the union over the full product of its assignments
+            k = len(spec["nodes"])
+            key = rng.choice(["A", "B", "S.X"])
+            spec["nodes"] += [
+                {"k": "opt", "key": key, "id": f"m{k}"}, {"k": "val", "v": "v0", "id": f"m{k + 1}"}, {"k": "val", "v": "v1", "id": f"m{k + 2}"},
+                {"k": "switch", "dispatch": "M2", "lookup": [[1, f"m{k + 2}"], [2, f"m{k}"]], "default": f"m{k + 1}", "id": f"m{k + 3}"},
+                {"k": "switch", "dispatch": "M", "lookup": [["a", f"m{k + 2}"], ["b", f"m{k + 3}"]], "default": f"m{k + 1}", "id": f"m{k + 4}"},
+                {"k": "dataset", "name": "MAPTGT", "args": {"x": f"m{k + 4}"}, "cache": rng.choice(["nocache", "default"]), "id": f"m{k + 5}"},
+                {"k": "val", "v": ["a", "b"], "id": f"m{k + 6}"}, {"k": "val", "v": [1, 2], "id": f"m{k + 7}"},
+                {"k": "map", "target": f"m{k + 5}", "iterables": {"M": f"m{k + 6}", "M2": f"m{k + 7}"}, "values": rng.random() < 0.5, "id": f"m{k + 8}"},
+                {"k": "dataset", "name": "OVERMAP", "args": {"m": f"m{k + 8}"}, "id": f"m{k + 9}"},
+            ]
+            spec["roots"] = spec["roots"] + [f"m{k + 8}", f"m{k + 9}"]
+        spec = gen.prune(spec)
         ops = gen_history(rng, cfg, spec)
         return {"cfg": cfg, "spec": spec, "ops": ops, "inplace": rng.random() < 0.33}
 
